@@ -462,6 +462,16 @@ class WorkflowRecovery:
                 return False
             upstream_stages.append(upstream)
 
+        # A stage that an OR-split upstream decides about is started or skipped by
+        # the StartStage / SkipStage that upstream pushed in its completing commit;
+        # recovery cannot re-derive that decision and must not start a branch the
+        # split skipped (its SkipStage may still be waiting in the queue).
+        from stabilize.models.stage import SplitType
+
+        for upstream in upstream_stages:
+            if upstream.split_type == SplitType.OR and stage.ref_id in (upstream.split_conditions or {}):
+                return False
+
         # N_OF_M: check threshold
         if stage.join_type == JoinType.N_OF_M:
             threshold = stage.join_threshold
